@@ -607,7 +607,7 @@ func c1Rearrange(src string, r *Rng, kinds map[string]bool, p int) (texts []stri
 	x.hasMarks = c1hasMark(f)
 	x.structDisj = c1hasStructDisj(f)
 	f.Decls = x.decls(f.Decls, true)
-	if kinds["files"] && r.Intn(100) < 35 {
+	if kinds["files"] && (r.Intn(100) < 35 || p >= 90) {
 		if fs := x.partition(f, 2+r.Intn(2)); fs != nil {
 			for _, nf := range fs {
 				t, err := c1print(nf)
